@@ -10,6 +10,7 @@ mod conc;
 mod drip;
 mod ring;
 mod sched;
+mod sources;
 mod waits;
 
 fn main() {
@@ -19,6 +20,7 @@ fn main() {
         Some("ring") => ring::run(&args),
         Some("blocks") => blocks::run(&args),
         Some("sched") => sched::run(&args),
+        Some("sources") => sources::run(&args),
         Some("conc") => conc::run(&args),
         Some("waits") => waits::run(&args),
         other => {
